@@ -35,6 +35,15 @@ def rx_functions(w):
 
 def run(chk, w):
     P = w.P
+    # reads of the message in static helpers that only the dispatcher calls belong to the calling case: analyse them inlined
+    from .. import inline
+    disp0 = dispatch.find_dispatcher(P)[0]
+    def _msg_helper(g):
+        if not g.internal or g.relfile != disp0.relfile or g.name in P.addr_taken():
+            return False
+        cs = P.callers().get(g.name, [])
+        return bool(cs) and all(cf.name == disp0.name for cf, ci in cs) and any((p.get("type") or "") == "i8*" for p in g.params)
+    chk.extra["dispatcher_helpers_inlined"] = sorted(set(inline.inline_helpers(P, disp0.name, _msg_helper)))
     rx, rxf = rx_functions(w)
     D = dispatch.Dispatch(w)
     disp = D.fn
